@@ -845,3 +845,26 @@ M('C17', 'filter-failure-propagates', 'nbdime/vcs/git/filter_integration.py', " 
 M('C17', 'check-attr-without-double-dash', 'nbdime/vcs/git/filter_integration.py', "['git', 'check-attr', '-z', 'filter', '--', path]", "['git', 'check-attr', '-z', 'filter', path]", 'R17.12')
 M('C17', 'deleted-entry-read-from-disk', GF, "            entry.b_path, entry.b_blob, ref_remote, repo_dir,\n            missing=entry.deleted_file)", "            entry.b_path, entry.b_blob, ref_remote, repo_dir)", 'R17.13')
 T('C17', 'twin-deletion-by-change-type', GF, "            missing=entry.deleted_file)", "            missing=(entry.change_type == 'D'))")
+
+# ---- session 4, round-5 triage
+M('C02', 'dict-differ-skips-two-falsy-values', GEN, "        avalue = a[key]\n        bvalue = b[key]\n", "        avalue = a[key]\n        bvalue = b[key]\n        if not avalue and not bvalue:\n            continue\n", 'R02.17')
+M('C12', 'predicate-list-trimmed-in-place', GEN, "    compares = config.predicates[path or '/']\n    if len(compares) > 1:\n        assert shallow_diff is None", "    compares = config.predicates[path or '/']\n    if len(a) * len(b) > 10000:\n        del compares[:-2]\n    if len(compares) > 1:\n        assert shallow_diff is None", 'R12.10')
+M('C14', 'ignored-path-test-memoised', GEN, "def _is_ignored(config, path):", "@lru_cache(maxsize=512)\ndef _is_ignored(config, path):", 'R14.16',
+  edits=[(GEN, "def diff_ignore(*args, **kwargs):", "from functools import lru_cache\n\n\ndef diff_ignore(*args, **kwargs):")])
+M('C12', 'flag-memo-in-args', ARGS, "def process_diff_flags(args):", "_last_flags = {}\n\n\ndef process_diff_flags(args):\n    _last_flags.update(vars(args))", 'R12.12')
+M('C18', 'driver-registered-after-attributes-check', DRV, "    check_call(cmd + ['merge.jupyternotebook.driver', 'git-nbmergedriver merge %O %A %B %L %P'])\n    check_call(cmd + ['merge.jupyternotebook.name', 'jupyter notebook merge driver'])\n\n    gitattributes = locate_gitattributes(scope)", "    gitattributes = locate_gitattributes(scope)", 'R18.11',
+  edits=[(DRV, "    with io.open(gitattributes, 'a', encoding=\"utf8\") as f:\n        f.write(u'\\n*.ipynb\\tmerge=jupyternotebook\\n')", "    check_call(cmd + ['merge.jupyternotebook.driver', 'git-nbmergedriver merge %O %A %B %L %P'])\n    check_call(cmd + ['merge.jupyternotebook.name', 'jupyter notebook merge driver'])\n    with io.open(gitattributes, 'a', encoding=\"utf8\") as f:\n        f.write(u'\\n*.ipynb\\tmerge=jupyternotebook\\n')")])
+M('C09', 'decisions-dump-raw-unicode', APP, "json.dump(decisions, outfile, indent=2)", "json.dump(decisions, outfile, indent=2, ensure_ascii=False)", 'R09.17')
+M('C17', 'blob-decoded-lossy', GF, "blob.data_stream.read().decode('utf-8')", "blob.data_stream.read().decode('utf-8', 'replace')", 'R17.14')
+M('C20', 'request-name-unescaped', SRV, "        body = json.loads(escape.to_unicode(self.request.body))\n        arg = body[argname]\n", "        body = json.loads(escape.to_unicode(self.request.body))\n        arg = escape.url_unescape(body[argname])\n", 'R20.15')
+M('C20', 'store-keeps-backup-copy', SRV, "        with io.open(path, 'w', encoding='utf8') as f:\n            f.write(text)", "        if os.path.isfile(path):\n            shutil.copyfile(path, path + '.orig')\n        with io.open(path, 'w', encoding='utf8') as f:\n            f.write(text)", 'R20.4',
+  edits=[(SRV, "import io\n", "import io\nimport shutil\n")])
+M('C19', 'entrypoint-by-prefix', ARGS, "        entrypoint = self.prog.split(' ')[0]", "        entrypoint = next((e for e in entrypoint_configurables if self.prog.startswith(e)), self.prog.split(' ')[0])", 'R19.11')
+M('C19', 'sections-layered-shallowly', CFGPY, "                recursive_update(config, disk_config[c.__name__], include_none)", "                config.update(disk_config[c.__name__])", 'R19.3')
+M('C04', 'clear-of-absent-key-is-noop', DEC, "                return [op_add(key, make_cleared_value(added))]", "                return []", 'R04.10')
+M('C01', 'reviver-validates-payload', DU, "def to_diffentry_dicts(di):", "def to_diffentry_dicts(di):\n    if isinstance(di, dict) and 'op' in di and 'key' not in di:\n        raise NBDiffFormatError('malformed diff entry')", 'R01.17')
+M('C03', 'fail-strategy-raises-in-generic-resolver', STR, '    if strategy.startswith("use-"):', '    if strategy == "fail":\n        raise RuntimeError("Unexpected conflict")\n    elif strategy.startswith("use-"):', 'R03.4')
+M('C05', 'strict-equal-ordered-items', GEN, "        return x.keys() == y.keys() and all(strict_equal(x[k], y[k]) for k in x)", "        x, y = tuple(x.items()), tuple(y.items())", 'R05.11')
+T('C05', 'twin-strict-equal-set-of-keys', GEN, "        return x.keys() == y.keys() and all(strict_equal(x[k], y[k]) for k in x)", "        return set(x) == set(y) and all(strict_equal(x[k], y[k]) for k in x)")
+M('C16', 'pprint-width-computed', PP, "    listr = pprint.pformat(li)", "    listr = pprint.pformat(li, width=MAXWIDTH - len(prefix))", 'R16.19')
+T('C16', 'twin-pprint-width-clamped', PP, "    listr = pprint.pformat(li)", "    listr = pprint.pformat(li, width=max(1, MAXWIDTH - len(prefix)))")
